@@ -301,6 +301,15 @@ def all_composites(root):
     return out
 
 
+def all_ops(root):
+    out = []
+    for n in composite_nodes(root)[2]:
+        out.append(n.operation)
+        if is_composite(n.operation):
+            out.extend(all_ops(n.operation))
+    return out
+
+
 def leaf_ops(root):
     out = []
     for n in composite_nodes(root)[2]:
@@ -359,11 +368,17 @@ class RealEvaluator:
             refs = link._reference_nodes
             if not refs:
                 return None
-            latest = refs[0]
+            group = link._relation_to_group.name
+            pick = refs[0]
             for r in refs:
-                if self.end(r) > self.end(latest):
-                    latest = r
-            return latest
+                # the relation AS DECLARED by the link's fields: LATEST = latest-ending member, EARLIEST = earliest-ending
+                # member (first one on ties).  Whether the library's own evaluation honours the declaration is a separate
+                # question (the 'reported' clause); the property's rule (latest-ending leaf) is only in the oracle's unroller.
+                if (group == "LATEST" and self.end(r) > self.end(pick)) or (group == "EARLIEST" and self.end(r) < self.end(pick)):
+                    pick = r
+            if group not in ("LATEST", "EARLIEST"):
+                raise TypeError(group)
+            return pick
         return link._reference_node
 
     def start(self, op):
@@ -619,6 +634,7 @@ def a_unroll(c, blocks):
                 "T": (max(ends) - first) if content else 0.0,
                 "span": ev.dur(c),     # earliest start .. latest end (differs from T iff something starts before the first-level operations)
                 "last_is_leaf": bool(content) and max(ends) <= max(ev.end(k) for k in lv),
+                "leaf_ends": len({rnd(ev.end(k)) for k in lv}),   # >= 2: 'latest-ending' is discriminating for this block
                 "first_start": first}
         blocks.append(info)
     for _ in range(1, n):
@@ -718,7 +734,7 @@ def nontrivial(program):
 # ------------------------------------------------------------------------------------------------
 # One case = one program: build, read input, unroll, judge every clause
 # ------------------------------------------------------------------------------------------------
-CLAUSES = ["multiplicity", "copies", "timing", "reported", "nT", "reset", "untouched", "idempotent", "listing", "succeeds"]
+CLAUSES = ["multiplicity", "copies", "timing", "chain", "reported", "nT", "reset", "untouched", "idempotent", "listing", "succeeds"]
 
 
 class Stats:
@@ -729,7 +745,7 @@ class Stats:
         self.skipped = {}
         self.hashes = set()
         self.samples = []
-        self.probe = {"stale_before_clear": 0, "stale_checked": 0, "external_refs": 0, "blocks": 0, "blocks_nT": 0, "blocks_early_start": 0,
+        self.probe = {"stale_before_clear": 0, "stale_checked": 0, "external_refs": 0, "blocks": 0, "blocks_nT": 0, "blocks_early_start": 0, "blocks_2_leaf_ends": 0, "blocks_3_leaf_ends": 0, "chain_links": 0,
                       "interleaved_listings": 0, "handdown_relinks": 0, "max_ops": 0}
 
     def fail(self, key, clause, function, witness, observed, required):
@@ -786,7 +802,10 @@ def timing_class(traits, exp_ops, act, pre_read):
     act_c = Counter((s, a, b) for s, a, b in act)
     bad = sorted((act_c - exp_c).elements(), key=lambda t: (t[1], t[2], str(t[0])))
     kinds = sorted({t[0][0] for t in bad})
-    if traits:
+    chain = sorted(t for t in traits if t.startswith("chain-link-declares-"))
+    if chain:
+        cls = chain[0]
+    elif traits:
         cls = sorted(traits)[0]     # one class per witness (barrier before value-equal siblings), so that the set of keys stays small and stable
     else:
         cls = f"first-deviating-kind-{bad[0][0][0] if bad else 'none'}"
@@ -910,6 +929,27 @@ def check_program(program, stats, verbose=False):
         root1 = c1.circuit_structure
         W1 = walk_snapshot(root1)
 
+        # ---- clause: what the chain link of every copy DECLARES (links that did not exist in the input) ---------------------
+        input_links = {t[1] for _, _, nodes, _, _ in W0 for t in nodes}
+        chain_bad = None
+        seen_links = set()
+        for o in all_ops(root1):
+            link = o.relation
+            if type(link).__name__ != "MultiRelationLink" or id(link) in input_links or id(link) in seen_links:
+                continue
+            seen_links.add(id(link))
+            stats.n["chain"] += 1
+            stats.probe["chain_links"] += 1
+            decl = (link._relation_to_group.name, link._relation_type.name)
+            if decl != ("LATEST", "FOLLOWED_BY") and chain_bad is None:
+                chain_bad = decl
+        if chain_bad is not None:
+            traits = set(traits) | {f"chain-link-declares-{chain_bad[0]}-{chain_bad[1]}"}
+            fail(f"extend:chain-link-declares-{chain_bad[0]}-{chain_bad[1]}", "each copy begins when the LATEST-ending relation leaf of what precedes it has ended: "
+                 "the link that chains a copy declares (group, relation) = (LATEST, FOLLOWED_BY)", "extend",
+                 {"declared": list(chain_bad), "note": "what the link's fields declare; the schedule that follows from the declaration is judged by the timing clause, "
+                  "the schedule the library reports by the reported clause"}, ["LATEST", "FOLLOWED_BY"])
+
         # ---- clause: every other operation untouched (same objects, same links), before anything is re-linked ---------
         stats.n["untouched"] += 1
         w0 = {cid: (nodes, d1, lv) for _, cid, nodes, d1, lv in W0}
@@ -1025,6 +1065,11 @@ def check_program(program, stats, verbose=False):
             act = [(sig_of(o), rnd(rev.start(o)), rnd(rev.end(o))) for o in ops1]
             if Counter(act) != Counter(exp_ops):
                 cls, kinds = timing_class(traits, exp_ops, act, pre_read)
+                try:
+                    rep_ok = Counter((sig_of(o), rnd(o.start_time), rnd(o.start_time + o.duration)) for o in ops1) == Counter(exp_ops)
+                except Exception:  # noqa
+                    rep_ok = None
+                kinds = {"kinds": kinds, "schedule_reported_by_the_library_satisfies_the_rule": rep_ok}
                 fail(f"repeat:timing:{cls}", "each copy begins when the latest-ending relation leaf of what precedes it has ended; "
                      "inside a copy the relations of the content hold", "repeat / extend / copy",
                      dict(counter_diff(Counter(exp_ops), Counter(act)), deviating_kinds=kinds), "the schedule of the own unroller")
@@ -1056,6 +1101,10 @@ def check_program(program, stats, verbose=False):
         if act is not None and Counter(act) == Counter(exp_ops):
             for b in blocks:
                 stats.probe["blocks"] += 1
+                if b["n"] >= 2 and b["leaf_ends"] >= 2:
+                    stats.probe["blocks_2_leaf_ends"] += 1
+                if b["n"] >= 2 and b["leaf_ends"] >= 3:
+                    stats.probe["blocks_3_leaf_ends"] += 1
                 if b["n"] < 2 or not b["last_is_leaf"] or b["size"] == 0:
                     continue
                 comp = b["node"].orig
@@ -1307,6 +1356,41 @@ def family_edge():
     ]
 
 
+def family_parallel():
+    """P: repeated blocks whose content has >= 2 (and 3) PARALLEL relation leaves that end at different times, so that
+    'the LATEST-ending leaf' is discriminating: fixed / registry / dynamic counts, single-level, nested, repeating root"""
+    contents = [
+        [op("Rx180", 0), op("Wait", 1, d=5.0)],                                                            # 2 leaves: 1 (or 3 / 0.5) vs 5
+        [op("Wait", 1, d=5.0), op("Rx180", 0)],                                                            # the later-ending leaf listed first
+        [op("Rx180", 0), op("Wait", 1, d=5.0), op("Wait", 2, d=2.0)],                                      # 3 leaves, the latest in the middle
+        [op("Wait", 2, d=2.0), op("Rx180", 0), op("Wait", 1, d=5.0)],                                      # 3 leaves, the latest last
+        [op("Wait", 1, d=5.0), op("Wait", 2, d=2.0), op("Wait", 0, d=0.0)],                                # 3 leaves, the latest first, a zero-length leaf
+        [op("CPhase", [0, 1]), op("Rx180", 0), op("Wait", 1, d=5.0), op("Wait", 2, d=2.0)],               # common stem, then 2 leaves + a parallel third
+        [op("Rx180", 0), op("Wait", 1, d=5.0), op("Wait", 2, d=7.0, rel=[0, "S"]), op("Wait", 0, d=1.0)],  # explicit JOINED_START branch is the latest
+    ]
+    progs = []
+    for c in contents:
+        for n in (2, 3, 4):
+            for src in "FRD":
+                cc = json.loads(json.dumps(c))
+                progs.append({"items": [sub(cc, n, src=src)]})
+                progs.append({"items": json.loads(json.dumps(c)), "root": {"reps": n, "src": src}})
+                progs.append({"items": [op("Rx180", 1), sub(json.loads(json.dumps(c)), n, src=src), op("DispersiveMeasure", 0, rel=[1, "F"]), op("Wait", 2, d=1.0)]})
+        # nested: the outer block has the inner block and one more parallel leaf of another length
+        for n, m in ((2, 2), (3, 2), (2, 3)):
+            for so, si in (("F", "F"), ("R", "R"), ("F", "R"), ("R", "D")):
+                progs.append({"items": [sub([sub(json.loads(json.dumps(c)), m, src=si), op("Wait", 3, d=4.0)], n, src=so)]})
+                progs.append({"items": [sub([op("Wait", 3, d=1.0), sub(json.loads(json.dumps(c)), m, src=si)], n, src=so), op("Rx180", 3)],
+                              "root": {"reps": 2, "src": so}})
+    out = []
+    for i, p_ in enumerate(progs):
+        p_["G"] = ("file", "A", "B")[i % 3]
+        if i % 5 == 4:
+            p_["pre_read"] = True
+        out.append(p_)
+    return out
+
+
 def kind_instances(k, q1, q2, qall):
     if k in SQ_GLOBAL or k == "DispersiveMeasure":
         return [op(k, q1)]
@@ -1379,6 +1463,7 @@ def make_jobs(tier, seed):
         ("E1 single block (exhaustive)", decorate(family_single(tier), seed, "E1")),
         ("E2 nested blocks (exhaustive)", decorate(family_nested(tier), seed, "E2")),
         ("F edge", [dict(p, G=p.get("G", "file")) for p in family_edge()] + [dict(p, G="A") for p in family_edge()]),
+        ("P parallel leaves of different length (>= 2 and 3 relation leaves per copy)", family_parallel()),
         ("L library", family_library(tier)),
         ("R random", [random_program(rng) for _ in range(60000 if thorough else 4000)]),
     ]
@@ -1396,7 +1481,7 @@ def make_jobs(tier, seed):
             chunks.append(ps[i:i + size])
     # hand-written edge programs first, then the library circuits (the slowest single items), the rest shuffled: a run
     # that is cut short by the time budget still covers every family proportionally
-    edge = [ps for (name, _), ps in zip(fam, lists) if name.startswith("F")]
+    edge = [ps for (name, _), ps in zip(fam, lists) if name.startswith("F") or name.startswith("P ")]
     edge_ids = {id(p) for ps in edge for p in ps}
     libs = [c for c in chunks if "lib" in c[0]]
     libs.sort(key=lambda c: -(int(c[0]["cycles"]) * len(c[0]["states"])))
@@ -1464,7 +1549,8 @@ def main(argv=None):
                 "relation type to every earlier item) x counts 1..3 x {repeating root, bare sub-circuit, sub-circuit with operations before/after/referring to it}; "
                 "E2 = ALL inner contents of <= 2 items over " + ("7" if args.tier == "thorough" else "4") + " atoms x outer shapes (inner block alone / one more operation (" +
                 ("5" if args.tier == "thorough" else "2") + " atoms) before or after it, every relation between the two) x counts (n,m) in 1..3 without (1,1), plus repeating-root variants; "
-                "the E families are enumerated completely ('exhaustive' is true iff no program was cut off by the time budget); R = seeded random programs, "
+                "P = hand-written contents with 2 and 3 parallel relation leaves of different length (Rx180 || Wait 5 || Wait 2 ...) x counts 2..4 x Fixed/Registry/Dynamic x "
+                "{bare, repeating root, with context, nested in an outer block with a further parallel leaf}; the E families are enumerated completely ('exhaustive' is true iff no program was cut off by the time budget); R = seeded random programs, "
                 "<= 6 top-level items, all 23 operation kinds, nesting <= 3, counts 1..4; L = repetition-code constructors (simplified and full) x distances x cycles. "
                 "Non-trivial = at least one count > 1 and at least one operation; distinct = distinct programs.")
     res.samples = total.samples[:6]
@@ -1478,6 +1564,11 @@ def main(argv=None):
          "contract": "clause 'each copy begins when the latest-ending relation leaf of what precedes it has ended' and 'chained one after another': multiset of (signature, start, end) "
                      "from the own evaluator over the REAL link fields = the same multiset of the own unroller's abstract circuit (built from the real input read before unrolling)",
          "bound": bound, "evaluations": n["timing"]},
+        {"function": "extend", "contract": "clause 'each copy begins when the LATEST-ending relation leaf ... has ended', as declared: every MultiRelationLink that unrolling created declares "
+                     "(group, relation) = (LATEST, FOLLOWED_BY); the real-side evaluator follows the DECLARED group type (EARLIEST = earliest-ending member), the oracle follows the property's rule "
+                     "(max end over the relation leaves of what precedes), so a wrong declaration shows in the timing clause on every block whose leaves end at different times",
+         "bound": bound + f" ({total.probe['chain_links']} chain links; {total.probe['blocks_2_leaf_ends']} repeated blocks with >= 2, {total.probe['blocks_3_leaf_ends']} with >= 3 distinct leaf end times)",
+         "evaluations": n["chain"]},
         {"function": "start_time / duration of the unrolled circuit", "contract": "the schedule the library reports with fresh memos = the own evaluation of the relation equations", "bound": bound, "evaluations": n["reported"]},
         {"function": "repeat / extend", "contract": "clause 'a block of duration T whose last-ending operation is a relation leaf occupies n*T': (latest end of the block's nodes - first-level start) "
                      "on the real unrolled block = n x T, T from the own evaluator on one copy of the content (inner blocks unrolled)", "bound": bound + f" ({total.probe['blocks_nT']} qualifying blocks of {total.probe['blocks']})", "evaluations": n["nT"]},
@@ -1501,6 +1592,9 @@ def main(argv=None):
                        f"{pr['blocks_early_start']} of {pr['blocks_nT']} qualifying blocks something starts earlier than that (JOINED_END with a longer duration), so the span is larger than T", "ok": True},
         {"assumption": f"reading circuit.operations re-linked relation-less first-level operations in {pr['handdown_relinks']} programs; the oracle models that hand-down", "ok": True},
         {"assumption": f"the n-fold-concatenation claim is NOT made for arbitrary programs: {pr['interleaved_listings']} generated programs have another (breadth-first interleaved) listing", "ok": True},
+        {"assumption": f"'latest-ending' is discriminating: {pr['blocks_2_leaf_ends']} repeated blocks (count >= 2) have relation leaves with >= 2 distinct end times, "
+                       f"{pr['blocks_3_leaf_ends']} with >= 3 (family P guarantees them in every run, fixed / registry / dynamic counts, single-level, nested, repeating root)",
+         "ok": pr["blocks_2_leaf_ends"] > 0 and pr["blocks_3_leaf_ends"] > 0},
         {"assumption": f"largest unrolled circuit: {pr['max_ops']} operations", "ok": pr["max_ops"] > 0},
     ]
     for f in total.failures.values():
